@@ -2134,22 +2134,20 @@ func runC17LimitRecheck(c *Ctx) {
 		return
 	}
 	n := 0
-	for _, fn := range p.AllSrcFuncs(pk) {
-		if fn.Parent() != nil {
-			continue
-		}
+	// the refusals: error returns on the limit-reached side of a comparison of the shard counter with the configured
+	// limit (found by field type / configuration tag and in every spelling of the comparison, see c17r4_A8.go)
+	anc := findC17Anchors(p)
+	funcs := p.AllSrcFuncs(pk)
+	for _, t := range c17LimitTests(anc, funcs) {
+		fn := t.Fn
 		locks := callsNamed(fn, func(f *types.Func) bool { return f.FullName() == "(*sync.Mutex).Lock" })
-		if len(locks) == 0 {
-			continue
-		}
 		for _, r := range returnsOf(fn) {
-			res := resultsOf(r)
-			if len(res) != 1 {
+			if !(t.Over == r.Block() || t.Over.Dominates(r.Block())) {
 				continue
 			}
 			isLimitErr := false
-			for v := range backSlice(res[0]) {
-				if g, ok := v.(*ssa.Global); ok && strings.Contains(strings.ToLower(g.Name()), "toomany") {
+			for i, res := range resultsOf(r) {
+				if isErrorType(fn.Signature.Results().At(i).Type()) && !isNilConst(res) {
 					isLimitErr = true
 				}
 			}
@@ -2169,6 +2167,10 @@ func runC17LimitRecheck(c *Ctx) {
 							if instrDominates(l.(ssa.Instruction), call) {
 								rechecked = true
 							}
+						}
+						// the lock is taken by the caller of this helper: every call of the helper is made with the lock held
+						if len(locks) == 0 && c17HelperCalledLocked(p, fn) {
+							rechecked = true
 						}
 					}
 				}
